@@ -172,7 +172,13 @@ func (s *Store) fillNew(acc metav1.Object) {
 		acc.SetUID(types.UID(fmt.Sprintf("uid-%04d", s.uidSeq)))
 	}
 	if ct := acc.GetCreationTimestamp(); ct.IsZero() && s.Clock != nil {
-		acc.SetCreationTimestamp(s.Clock())
+		t := s.Clock()
+		if s.Actor == "init" {
+			// the scenario's pre-existing objects were created long ago, one after the other (the
+			// repository sorts ReplicaSets / Deployments by creation time; ties would be arbitrary)
+			t = metav1.Unix(t.Unix()-3600+int64(s.uidSeq), 0)
+		}
+		acc.SetCreationTimestamp(t)
 	}
 	if acc.GetGeneration() == 0 {
 		acc.SetGeneration(1)
